@@ -198,7 +198,7 @@ def showROutFlat : ROut → String
   | .err e => "err " ++ (match e with
       | .io => "io" | .fileCode c => s!"filecode {c}" | .shapeType c => s!"shapetype {c}"
       | .patchType c => s!"patchtype {c}" | .mismatch r a => s!"mismatch {r.name} {a.name}"
-      | .recSize => "recsize" | .noIndex => "noindex")
+      | .recSize => "recsize" | .noIndex => "noindex" | .dbase => "dbase")
   | .unit => "unit"
   | .count n => s!"count {n}"
   | .panic s => "panic " ++ s
@@ -211,6 +211,7 @@ def showErr : Err → String
   | .mismatch r a => s!"mismatch {r.name} {a.name}"
   | .recSize => "recsize"
   | .noIndex => "noindex"
+  | .dbase => "dbase"
 
 def showROut : ROut → String
   | .none => "none"
